@@ -79,6 +79,30 @@ func affineOf(info *types.Info, x *expander, e ast.Expr, canon func(string) stri
 			out.c = l.c + sign*r.c
 			return out
 		}
+		if n.Op == token.MUL {
+			l, r := affineOf(info, x, n.X, canon), affineOf(info, x, n.Y, canon)
+			if l.ok && r.ok {
+				isC := func(a affForm) bool {
+					for _, v := range a.coef {
+						if v != 0 {
+							return false
+						}
+					}
+					return true
+				}
+				if isC(l) {
+					l, r = r, l
+				}
+				if isC(r) {
+					out := affForm{coef: map[string]int64{}, ok: true, c: l.c * r.c}
+					for k, v := range l.coef {
+						out.coef[k] = v * r.c
+					}
+					return out
+				}
+			}
+			return affForm{coef: map[string]int64{canon(x.str(e)): 1}, ok: true}
+		}
 	case *ast.UnaryExpr:
 		if n.Op == token.SUB {
 			l := affineOf(info, x, n.X, canon)
